@@ -29,7 +29,8 @@ D, DT = datetime.date, datetime.datetime
 VALS = [None, True, False, 0, 1, 2, 3, -1, 10, 11, 12, 13, 14, 15,          # 0..13
         0.5, 1.5, 2.0, -1.0, float("nan"),                                     # 14..18
         "a", "b", "c", "", "B", "d", "e",                                      # 19..25
-        D(2020, 1, 1), D(2021, 6, 1), DT(2020, 1, 1, 0, 0), b"a", (1, 2), 1 + 2j]   # 26..31
+        D(2020, 1, 1), D(2021, 6, 1), DT(2020, 1, 1, 0, 0), b"a", (1, 2), 1 + 2j,    # 26..31
+        DT(2020, 1, 1, 5, 30)]                                                     # 32
 IX = {"int": [8, 9, 10, 11, 12, 13], "intn": [8, 0, 10, 0, 12, 13], "str": [19, 20, 21, 24, 25, 23],
       "strn": [0, 19, 0, 21, 24, 25], "float": [14, 15, 16, 17, 14, 15], "dup": [4, 4, 5, 4, 5, 5],
       "bool": [1, 2, 1, 1, 2, 2], "obj": [4, 19, 15, 0, 30, 29], "date": [26, 27, 26, 0, 27, 26], "none": [0, 0, 0, 0, 0, 0]}
@@ -227,6 +228,18 @@ def _generate(rng, tier):
             for y in scal:
                 for form in ("vec", "list", "tuple", "scalar", "rscalar", "rlist"):
                     yield {"fam": "cmp", "op": op, "xs": [x], "other": {"t": form, "ys": [y]}}
+    # ---- a date vector promoted IN PLACE to datetime (v[i] = some datetime) and then compared: the answer depends on the current
+    #      elements only, exactly as for a vector freshly built from them
+    for op in OPS:
+        if op in ("and", "or", "xor"):
+            continue
+        for xs in ([26, 27], [27, 26, 26], [26, 0, 27]):
+            for pos in range(len(xs)):
+                if xs[pos] == 0:
+                    continue
+                for form, ys in (("scalar", [28]), ("vec", [28] * len(xs)), ("list", [28] * len(xs)), ("rscalar", [28]),
+                                 ("scalar", [32])):
+                    yield {"fam": "cmp", "op": op, "xs": xs, "other": {"t": form, "ys": ys}, "promote": [pos, 32]}
     # ---- logical NOT: `~v` on every boolean vector over {True, False, None} up to length 4 (and declared-bool empties)
     for n in range(0, 5):
         for xs in itertools.product([1, 2, 0], repeat=n):
@@ -448,6 +461,13 @@ def _exec_cmp(spec):
     ys = [VALS[i] for i in o["ys"]]
     form = o["t"]
     v = Vector(xs) if xs or not spec.get("xdtype") else Vector([], dtype=DTYPES[spec["xdtype"]])
+    if spec.get("promote"):
+        pos, vi = spec["promote"]
+        try:
+            v[pos] = VALS[vi]                 # in-place promotion date -> datetime
+        except Exception as e:
+            return {"skip": "promotion refused: " + type(e).__name__}
+        xs = list(v)                          # the current elements (the remaining dates were converted)
     refl = form in ("rscalar", "rlist")
     if form == "vec":
         other = Vector(ys) if ys or not spec.get("ydtype") else Vector([], dtype=DTYPES[spec["ydtype"]])
